@@ -76,8 +76,11 @@ pub struct Scenario {
 }
 
 // (the last site has the latitude of the first and another longitude: anything remembered per latitude shows)
-pub const RX: [(f64, f64); 8] = [(52.0, 4.0), (85.0, 10.0), (0.01, 179.9), (-33.9, 151.2), (40.0, -100.0), (0.0, 0.0), (-89.0, -179.95), (52.0, -120.0)];
-pub const RANGES: [f64; 4] = [500.0, 50.0, 20000.0, 0.0];
+// (appended: three sites 100-700 km from the first one - a receiver that is corrected or moves
+// while an aircraft is tracked: about 105 km east, 100 km north, one odd longitude zone east)
+pub const RX: [(f64, f64); 11] = [(52.0, 4.0), (85.0, 10.0), (0.01, 179.9), (-33.9, 151.2), (40.0, -100.0), (0.0, 0.0), (-89.0, -179.95), (52.0, -120.0), (52.0, 5.53), (52.9, 4.0), (52.0, 14.2857)];
+// (appended: no limit at all - more than half the circumference of the Earth, and infinity)
+pub const RANGES: [f64; 6] = [500.0, 50.0, 20000.0, 0.0, 40075.0, f64::INFINITY];
 // (addresses that differ from the first one in the last, the first or the middle octet only; the all-zero and the all-one address)
 const ADDR: [u32; 6] = [0xabc001, 0xabc002, 0x7cc001, 0xab0001, 0x000000, 0xffffff];
 
@@ -650,8 +653,9 @@ fn step_model(model: &mut Model, b: &Built, added: Added, planes: &Airplanes, rx
         // a (re)added record starts empty apart from what this frame carries
         let fresh = st.callsign.is_none() || b.ident_raw.is_some();
         let fresh2 = st.coords.position.is_none() && st.track.as_ref().map(|t| t.iter().all(|c| c.position.is_none())).unwrap_or(true);
-        if !(fresh && fresh2 && (st.heading.is_none() || b.velocity.is_some())) {
-            fails.push(("C15/readd_not_empty".into(), format!("{key}: newly added record is not empty: callsign {:?}, position {:?}", st.callsign, st.coords.position)));
+        let no_velocity = st.heading.is_none() && st.speed.is_none() && st.vert_speed.is_none();
+        if !(fresh && fresh2 && (no_velocity || b.velocity.is_some())) {
+            fails.push(("C15/readd_not_empty".into(), format!("{key}: newly added record is not empty: callsign {:?}, position {:?}, heading / speed / vertical rate {:?} / {:?} / {:?}", st.callsign, st.coords.position, st.heading, st.speed, st.vert_speed)));
         }
     }
     if let Some(raw) = &b.ident_raw {
@@ -1072,6 +1076,9 @@ pub fn replay(pid: &str, v: &Value) -> Vec<Failure> {
     if v.get("kind").and_then(|k| k.as_str()) == Some("long_flight") {
         return long_flight_check(v["n"].as_u64().unwrap_or(9000) as usize).into_iter().filter(|f| f.0.starts_with(pid) || f.0.starts_with("C01")).map(|(sig, msg)| Failure { sig, msg, replay: v.clone() }).collect();
     }
+    if v.get("kind").and_then(|k| k.as_str()) == Some("thin_traffic") {
+        return thin_traffic_check().into_iter().filter(|f| f.0.starts_with(pid)).map(|(sig, msg)| Failure { sig, msg, replay: v.clone() }).collect();
+    }
     if v.get("kind").and_then(|k| k.as_str()) == Some("crowd_expiry") {
         return crowd_expiry_check(v["n"].as_u64().unwrap_or(300) as usize).into_iter().map(|(sig, msg)| Failure { sig, msg, replay: v.clone() }).collect();
     }
@@ -1372,6 +1379,125 @@ pub fn long_flight_check(n: usize) -> Vec<Fail> {
 
 /// C15 with a crowd: `n` aircraft, every second one silent for longer than the threshold; one
 /// expiry call removes exactly those.
+/// The receiver position changes while an aircraft is tracked (radar takes it from gpsd with
+/// every fix): an aircraft published near the first site, the receiver moves 100 km, and the
+/// next reports put the aircraft on both sides of "100 km from the previous position" while
+/// they are well inside a 50 km (and a 500 km) limit around the new receiver position.  Every
+/// history goes through the reference model like a generated one.
+pub fn moving_receiver_check() -> Vec<(Fail, Scenario)> {
+    let mut out = vec![];
+    let pos = |odd: bool, src: PosSrc| Op::Squitter { ac: 0, df18: None, kind: Kind::Position { odd, tc: 11, alt: 0x5d0, src } };
+    for range in [1u8, 0] {
+        // (site 10 is one odd longitude zone east of the first site: an aircraft at the same
+        // offset from the new receiver position sends an even report that pairs consistently
+        // with its stale odd report - to a place 700 km from the one published before)
+        for site in [8u8, 9, 10] {
+            for first_odd in [false, true] {
+                for bearing in (0u16..360).step_by(30) {
+                    for permille in [60u16, 300, 600, 900] {
+                        let start_pm = if site == 10 { if range == 1 { permille } else { permille / 10 } } else { 100 };
+                        let ops = vec![
+                            pos(false, PosSrc::Flight { bearing: 0, d_centinm: 0 }),
+                            pos(true, PosSrc::Flight { bearing: 0, d_centinm: 10 }),
+                            Op::MoveRx { site },
+                            pos(first_odd, PosSrc::AtRange { bearing, permille: if range == 1 { permille } else { permille / 10 } }),
+                            pos(!first_odd, PosSrc::Flight { bearing, d_centinm: 20 }),
+                            pos(first_odd, PosSrc::Flight { bearing, d_centinm: 20 }),
+                            pos(!first_odd, PosSrc::Flight { bearing, d_centinm: 20 }),
+                        ];
+                        let s = Scenario { rx: 0, range, start: vec![(bearing, start_pm)], ops, isolate: 0, snap: 0 };
+                        let (fails, _) = eval_scenario(&s);
+                        if let Some(f) = fails.into_iter().next() {
+                            out.push((f, s));
+                            if out.len() >= 3 {
+                                return out;
+                            }
+                        }
+                    }
+                }
+            }
+        }
+    }
+    out
+}
+
+/// Thin traffic in real time (no back-dating): for about 2.6 s aircraft B is heard every 100 ms
+/// with `prune(1)` after every frame, aircraft A was heard once at the start, and now and then a
+/// third aircraft sends a frame.  B, heard 0.1 s ago, must stay tracked, must never be reported
+/// as added again and its count must be the number of its frames; A must be tracked while it has
+/// been silent for less than 0.7 s and gone once it has been silent for more than 1.4 s (in
+/// between nothing is asserted: the threshold is whole seconds).  Ages come from the harness's
+/// own monotonic clock, measured around each call.
+pub fn thin_traffic_check() -> Vec<Fail> {
+    use std::time::{Duration, Instant};
+    let mut fails: Vec<Fail> = vec![];
+    let mut planes = Airplanes::new();
+    let frame = |addr: u32, k: u64| -> Option<Frame> {
+        let mut me = [0u8; 7];
+        set(&mut me, 1, 5, 4);
+        set(&mut me, 9, 6, 1 + k % 26);
+        Frame::from_bytes(&squitter(17, 5, addr, &me)).ok()
+    };
+    let (a, b, c) = (0x3c0001u32, 0x3c0002u32, 0x3c0003u32);
+    let rx = (52.0, 4.0);
+    let Some(fa) = frame(a, 0) else { return fails };
+    let r = catch_unwind(AssertUnwindSafe(|| {
+        planes.action(fa, rx, 500.0);
+        let a_heard = Instant::now();
+        let mut b_count = 0u64;
+        for i in 0..26u64 {
+            let Some(fb) = frame(b, i) else { continue };
+            let b_heard = Instant::now();
+            let added = planes.action(fb, rx, 500.0);
+            b_count += 1;
+            if i > 0 && added == Added::Yes {
+                fails.push(("C12/added/real_time".into(), format!("aircraft heard every 100 ms: frame {i} is reported as newly added")));
+                fails.push(("C15/added_without_expiry/real_time".into(), format!("aircraft heard every 100 ms: frame {i} is reported as newly added")));
+                break;
+            }
+            if i % 7 == 3 {
+                if let Some(fc) = frame(c, i) {
+                    planes.action(fc, rx, 500.0);
+                }
+            }
+            let before = a_heard.elapsed();
+            planes.prune(1);
+            let after = a_heard.elapsed();
+            // (on a machine so loaded that this thread was off the CPU for most of a second
+            // between the frame and the expiry call, nothing can be said about this round)
+            let stalled = b_heard.elapsed() > Duration::from_millis(600);
+            match planes.get(icao(b)) {
+                None if stalled => break,
+                None => {
+                    fails.push(("C12/removed_without_expiry/real_time".into(), format!("prune(1) removed an aircraft heard a moment ago (its frame {i}, one every 100 ms)")));
+                    fails.push(("C15/prune_keys/real_time".into(), format!("prune(1) removed an aircraft heard a moment ago (its frame {i}, one every 100 ms)")));
+                    break;
+                }
+                Some(st) if st.num_messages as u64 != b_count => {
+                    fails.push(("C12/num_messages/real_time".into(), format!("aircraft heard every 100 ms: count {} after {b_count} frames", st.num_messages)));
+                    break;
+                }
+                _ => {}
+            }
+            let a_there = planes.get(icao(a)).is_some();
+            if a_there && before > Duration::from_millis(1400) {
+                fails.push(("C15/prune_keys/real_time".into(), format!("prune(1) kept an aircraft that had been silent for {:.2} s", before.as_secs_f64())));
+                break;
+            }
+            if !a_there && after < Duration::from_millis(700) {
+                fails.push(("C15/prune_keys/real_time".into(), format!("prune(1) removed an aircraft that had been silent for only {:.2} s", after.as_secs_f64())));
+                fails.push(("C12/removed_without_expiry/real_time".into(), format!("prune(1) removed an aircraft that had been silent for only {:.2} s", after.as_secs_f64())));
+                break;
+            }
+            std::thread::sleep(Duration::from_millis(100));
+        }
+    }));
+    if r.is_err() {
+        fails.push(("C01/panic/tracker/real_time".into(), format!("the tracker panicked at {}", last_panic())));
+    }
+    fails
+}
+
 pub fn crowd_expiry_check(n: usize) -> Vec<Fail> {
     let mut planes = Airplanes::new();
     let mut fails = vec![];
@@ -1593,6 +1719,8 @@ pub fn run(ctx: &Ctx, pid: &'static str) -> ! {
     let with_time = pid == "C15" || pid == "C12";
     let cases = ctx.tier.pick(96_000u32, 4_000_000);
     let max_ops = if pid == "C13" || pid == "C14" { 60 } else { 40 };
+    // real time, thin traffic: runs beside the generated histories (it mostly sleeps)
+    let thin = if pid == "C12" || pid == "C15" { Some(std::thread::spawn(thin_traffic_check)) } else { None };
     let mut st = parallel(|w, st| {
         let strat = scenario_s(max_ops, with_time);
         let mut runner = TestRunner::new(Config { cases: cases / WORKERS as u32, failure_persistence: None, rng_seed: RngSeed::Fixed(runner_seed(ctx.seed, 0x7000 + pid.as_bytes()[2] as u64, w as u64)), max_shrink_iters: 3000, ..Config::default() });
@@ -1761,6 +1889,25 @@ pub fn run(ctx: &Ctx, pid: &'static str) -> ! {
         st.class("long flight of one aircraft");
         for (sig, msg) in long_flight_check(n).into_iter().filter(|f| f.0.starts_with(pid)) {
             st.fail(Failure { sig, msg, replay: json!({"kind": "long_flight", "n": n}) });
+        }
+    }
+    if pid == "C13" {
+        let n = 2 * 3 * 2 * 12 * 4;
+        st.evaluations += n;
+        st.nontrivial_enum += n;
+        st.class_n("receiver moves 100-700 km while an aircraft is tracked", n);
+        for ((sig, msg), sc) in moving_receiver_check().into_iter().filter(|(f, _)| f.0.starts_with(pid)) {
+            if !st.failures.contains_key(&sig) {
+                st.fail(Failure { sig, msg, replay: scenario_json(&sc) });
+            }
+        }
+    }
+    if let Some(h) = thin {
+        st.evaluations += 26;
+        st.nontrivial_enum += 1;
+        st.class("thin traffic in real time");
+        for (sig, msg) in h.join().unwrap_or_default().into_iter().filter(|f| f.0.starts_with(pid)) {
+            st.fail(Failure { sig, msg, replay: json!({"kind": "thin_traffic"}) });
         }
     }
     if pid == "C15" {
